@@ -376,11 +376,14 @@ def gen_deep(rng, thorough):
 
 
 def family(stream, v):
-    """Violations are reported once per stream family and kind of failure."""
-    fam = stream.split(":")
-    fam = ":".join(fam[:2]).split(".")[0] if fam[0] == "mutant" else fam[0]
+    """Violations are reported once per kind of failure: an exception that is not RTAMTException by its type and the kind of
+    text (import / annotation / other), anything else by the stream family and the oracle."""
     imp = v.replay.get("impl") or ()
-    return fam, (imp[1] if len(imp) > 2 and imp[0] == "other" else v.replay.get("oracle", "model"))
+    if len(imp) > 2 and imp[0] == "other":
+        text = v.replay.get("text", "")
+        return imp[1], ("import" if "import " in text else "topic" if "@topic" in text else "expression")
+    fam = stream.split(":")
+    return (":".join(fam[:2]).split(".")[0] if fam[0] == "mutant" else fam[0]), v.replay.get("oracle", "model")
 
 
 def explore(ctx, rng, count):
